@@ -29,7 +29,7 @@ import traceback
 
 from vt import sx
 
-ROOT = '/verif'
+ROOT = os.environ.get('VERIF_ROOT', '/verif')   # developer override (scratch copy of /verif); registered commands never set it
 COQ = os.path.join(ROOT, 'coq')
 BUILD = os.path.join(ROOT, 'build')
 REPO = os.environ.get('VERIF_REPO', '/repo')
